@@ -34,7 +34,7 @@ PROFILES = {
     "C07": dict(tags={"output", "exit", "refs", "object"}, names={"status", "commit"},
                 weights={"status": 14, "commit": 14, "add": 16, "rm": 6, "restore-staged": 5},
                 components=[b"test", b"test.c", b"test-data", b"lib", b"lib.go", b"lib-old", b"a", b"d", b"d-x", b"x", b"50%off", b"k%s"],
-                depths=[1, 1, 2, 2, 3]),
+                depths=[1, 1, 2, 2, 3], fd_conflicts=True),
     "C08": dict(tags={"refs", "HEAD", "index", "work tree", "exit", "output"}, names={"reset", "reflog"},
                 weights={"reset": 14, "reflog": 8, "commit": 14, "switch": 4, "switch-c": 3, "edit": 24}),
     "C09": dict(tags={"index", "work tree", "exit"}, names={"restore", "restore-staged"},
